@@ -266,6 +266,14 @@ func (d *Decoder) Decode(pkt *rtp.Packet) ([][]byte, error) {
 			return nil, err
 		}
 
+		// the stream does use the Marker field: the buffered access unit lost its last packet,
+		// while the one that starts here is already complete. Return the complete one,
+		// otherwise every following access unit would be returned one packet late.
+		if pkt.Marker {
+			ret = d.frameBuffer
+			d.resetFrameBuffer()
+		}
+
 		return ret, nil
 	}
 
